@@ -3,7 +3,7 @@
 # applies the seeded patch in the scratch worktree, runs the property's check against that tree, restores it
 P=$1; WT=$2; S=$3; TIER=${4:-quick}
 cd "$WT" || exit 2
-git checkout -q -- . && git apply "_seed/$S/patch.diff" || { echo "$P $S: patch does not apply"; exit 2; }
+git checkout -q -- . && git checkout -q --detach $(git -C /repo rev-parse HEAD) && git apply "_seed/$S/patch.diff" || { echo "$P $S: patch does not apply"; exit 2; }
 T0=$(date +%s)
 OUT=$(cd /verif && URAL_REPO="$WT" VERIF_EVIDENCE_DIR=/tmp/seed/ev VERIF_REPLAY_DIR=/tmp/seed/replays/$P-$S VERIF_MAX_VIOL=2 ./check "$P" --tier "$TIER" 2>&1)
 RC=$?
